@@ -11,7 +11,6 @@ import (
 	"github.com/tuneinsight/lattigo/v6/schemes/bgv"
 	"github.com/tuneinsight/lattigo/v6/schemes/ckks"
 
-	"verif/harness/eng"
 	"verif/harness/obs"
 	"verif/harness/ref"
 )
@@ -303,9 +302,11 @@ func (e *env) minLevel(bits float64) int {
 	return -1
 }
 
-// levelFor picks a random level that leaves room for opsNoise (added by the operation) when the
-// ciphertext is the sum of nsum fresh ones.
-func (e *env) levelFor(r *eng.Rand, opsNoise float64, nsum int) int {
+func log2f(x float64) float64 { return math.Log2(x) }
+
+// minLevelFor returns the lowest level that leaves room for opsNoise (added by the operation) when the
+// result is the sum of nsum fresh ciphertexts, or -1.
+func (e *env) minLevelFor(opsNoise float64, nsum int) int {
 	var need float64
 	tot := opsNoise + float64(nsum)*(e.B+1)
 	switch e.cfg.Scheme {
@@ -316,11 +317,7 @@ func (e *env) levelFor(r *eng.Rand, opsNoise float64, nsum int) int {
 	default:
 		need = math.Log2(tot) + 4
 	}
-	lo := e.minLevel(need)
-	if lo < 0 {
-		return -1
-	}
-	return lo + r.N(len(e.cfg.Q)-lo)
+	return e.minLevel(need)
 }
 
 // ---------------------------------------------------------------------------------------------
